@@ -65,6 +65,9 @@ type readerCase struct {
 	Faults     []fetchFault  `json:"faults"`
 	UseConn    bool          `json:"use_conn"`
 	ChunkReads int           `json:"chunk_reads"` // deliver fetch responses in reads of at most this many bytes (0 = whole)
+	// OpenTxnAt > 0: a transaction is open on the partition from this offset on (the brokers report it as the last stable
+	// offset, below the high watermark); a reader with the default isolation level reads on past it
+	OpenTxnAt int64 `json:"open_txn_at,omitempty"`
 }
 
 func init() { ev.Register("reader", func(tb ev.TB, c readerCase) { run(tb, c) }) }
@@ -131,7 +134,13 @@ func run(tb ev.TB, c readerCase) (labels []string) {
 	if c.LogStart > 0 {
 		cl.SetLogRange(topic, int32(c.Part), c.LogStart, 0)
 	}
+	if c.OpenTxnAt > 0 {
+		cl.PartitionUnlocked(topic, int32(c.Part)).OpenTxnFrom = c.OpenTxnAt
+	}
 	lab := map[string]bool{}
+	if c.OpenTxnAt > 0 {
+		lab["open_transaction_below_hwm"] = true
+	}
 	for _, l := range c.Initial.Labels {
 		lab[l] = true
 	}
@@ -601,6 +610,12 @@ func genCase(t *rapid.T) readerCase {
 		c.Start = "offset"
 		// inside the log: a stored offset, a hole, a batch interior, or the end
 		c.StartOff = o.Start + int64(rapid.IntRange(0, int(c.Initial.End-o.Start)).Draw(t, "startOff"))
+	}
+	if rapid.IntRange(0, 3).Draw(t, "openTxn") == 0 && c.Initial.End > o.Start+1 {
+		c.OpenTxnAt = o.Start + 1 + int64(rapid.IntRange(0, int(c.Initial.End-o.Start)-2).Draw(t, "openTxnAt"))
+		if c.Start == "offset" && rapid.Bool().Draw(t, "startAtLSO") {
+			c.StartOff = c.OpenTxnAt // the position the reader starts from is exactly the last stable offset
+		}
 	}
 	end := c.Initial.End
 	nSteps := rapid.IntRange(1, 6).Draw(t, "nSteps")
